@@ -30,12 +30,12 @@ CHECKS = {
          "DESIGN.md §5 C11"),
  "C16": ("mc-sem", "model_checking",
          "exhaustive input/history enumeration re-executed under an enumerated set of process hash seeds (LD_PRELOAD getrandom shim, single-threaded workers) and independent in-process rebuilds; SHA-256 equality",
-         "Inputs: every state of bounded E1 explorations over the C06, C03 and C02 universes, histories that define base types after their dependants and create many same-rank nodes, slot-reuse histories (a package owning 3-5 nodes is unregistered or its nodes are removed one by one, then as many independent nodes are created), every .wac file of the repository's test and example directories (parse, print, discover, resolve with the neighbouring packages, encode, rendered diagnostics), the two-position document family of C17 and multi-fault documents (several faults of one class in one document). Each input is processed twice per process (fresh hash maps) in 8 (quick) / 32 (thorough) worker processes whose std hash seed is an explicit input; encoded bytes in both dependency modes, printed text, rendered diagnostics, imports() listings and clone-vs-original encodings must be identical over all executions.",
+         "Inputs: every state of bounded E1 explorations over the C06, C03 and C02 universes, histories that define base types after their dependants and create many same-rank nodes, slot-reuse histories (a package owning 3-5 nodes is unregistered or its nodes are removed one by one, then as many independent nodes are created), every .wac file of the repository's test and example directories (parse, print, discover, resolve with the neighbouring packages, encode, rendered diagnostics), the two-position document family of C17 and multi-fault documents (several faults of one class in one document, incl. import merge conflicts involving several instantiations and explicit imports). Each input is processed twice per process (fresh hash maps) in 8 (quick) / 32 (thorough) worker processes whose std hash seed is an explicit input; encoded bytes in both dependency modes, printed text, rendered diagnostics, imports() listings and clone-vs-original encodings must be identical over all executions.",
          "The input/history dimension is exhaustive at the stated bounds; the hash-seed dimension is a deterministic, replayable enumeration of seeds, not an order-coverage argument (reported exhaustive=false). std HashMap keys come from getrandom (shimmed; effectiveness asserted by a probe each run); hashbrown maps inside wasmparser are assumed not to influence output.",
          "DESIGN.md §5 C16, §4 E8"),
  "C17": ("mc-sem", "exploration",
          "exhaustive enumeration of syntactic positions x packages (singles, ordered pairs, triples) with a generic AST-walk reference set and a differential resolve",
-         "A foreign package reference is placed at each of 17 syntactic positions (targets clause; import path; use paths in interface, world, inline interfaces of import statements / world imports / world exports; world import/export paths; include; new in let, named and string-named arguments, parentheses, under a postfix chain, in export, doubly nested) with and without version, singly and in all ordered pairs (thorough: all triples and the same package at two versions), plus own-package references (own directive with and without a version x reference without a version / with the own version / with another version) and self-instantiation at every position. packages(doc) must contain every (name, version) object found by a generic walk over the serialised AST, never the own package; self-instantiation must be rejected; resolving with exactly the discovered packages must give the same outcome and the same encoded bytes (both modes) as resolving with the whole library.",
+         "A foreign package reference is placed at each of 21 syntactic positions (targets clause; import path; use paths in interface, world, inline interfaces of import statements / world imports / world exports; world import/export paths; include; new in let, named and string-named arguments, parentheses, under a postfix chain, in export, doubly nested, and in a named argument that follows a spread / named / inferred argument or precedes a spread and the fill) with and without version, singly and in all ordered pairs (thorough: all triples and the same package at two versions), plus own-package references (own directive with and without a version x reference without a version / with the own version / with another version) and self-instantiation at every position. packages(doc) must contain every (name, version) object found by a generic walk over the serialised AST, never the own package; self-instantiation must be rejected; resolving with exactly the discovered packages must give the same outcome and the same encoded bytes (both modes) as resolving with the whole library.",
          "The reference set comes from the parser's own serialised AST (independent of the visitor, not of the parser). Supersets are represented by the whole library.",
          "DESIGN.md §5 C17"),
  "C08": ("mc-graph", "exploration",
